@@ -178,6 +178,49 @@ theorem popLink_norm (o : Ops) (s : MSt) : normSt (popLink o (normSt s)) = normS
         · simp
         · split <;> simp
 
+theorem popPlain_norm (s : MSt) (el : Str) :
+    (popPlain (normSt s) el).1 = (popPlain s el).1 ∧ normSt (popPlain (normSt s) el).2 = normSt (popPlain s el).2 := by
+  unfold popPlain
+  cases hs : s.stack with
+  | nil => simp [normSt, hs]
+  | cons top rest =>
+    have hn : (normE top).name = top.name := rfl
+    simp only [normSt, hs, List.map_cons, hn, normE_flatten]
+    by_cases h1 : (top.name != el) = true
+    · simp [h1, hs]
+    · simp [h1]
+
+/-- stage 7: the author / contributor end handlers read the open element's text only through the join of its pieces -/
+theorem endAuthorKinds_norm (o : Ops) (s : MSt) (kind : Str) :
+    (endAuthorKinds o (normSt s) kind).map normSt = (endAuthorKinds o s kind).map normSt := by
+  have hpop : ∀ el, (pop o (normSt s) el).c = (pop o s el).c ∧ (pop o (normSt s) el).stack.map normE = (pop o s el).stack.map normE :=
+    fun el => (normSt_eq_iff _ _).mp (pop_norm o s el)
+  unfold endAuthorKinds
+  by_cases k1 : (kind == S "author") = true
+  · simp only [k1, ↓reduceIte, Option.map_some, Option.some.injEq]
+    rw [normSt_eq_iff]; exact ⟨by simp only [(hpop _).1], (hpop _).2⟩
+  · simp only [k1, Bool.false_eq_true, ↓reduceIte]
+    by_cases k2 : (kind == S "contributor") = true
+    · simp only [k2, ↓reduceIte, Option.map_some, Option.some.injEq]
+      rw [normSt_eq_iff]; exact ⟨by simp only [(hpop _).1], (hpop _).2⟩
+    · simp only [k2, Bool.false_eq_true, ↓reduceIte]
+      by_cases k3 : (kind == S "name") = true
+      · simp only [k3, ↓reduceIte, Option.map_some, Option.some.injEq]
+        have hp := popPlain_norm s (S "name")
+        have h2 := (normSt_eq_iff _ _).mp hp.2
+        rw [normSt_eq_iff]; exact ⟨by simp only [hp.1, h2.1], h2.2⟩
+      · simp only [k3, Bool.false_eq_true, ↓reduceIte]
+        by_cases k4 : (kind == S "email") = true
+        · simp only [k4, ↓reduceIte, Option.map_some, Option.some.injEq]
+          have hp := popPlain_norm s (S "email")
+          have h2 := (normSt_eq_iff _ _).mp hp.2
+          rw [normSt_eq_iff]; exact ⟨by simp only [hp.1, h2.1], h2.2⟩
+        · simp only [k4, Bool.false_eq_true, ↓reduceIte]
+          by_cases k5 : (kind == S "url") = true
+          · simp only [k5, ↓reduceIte, Option.map_some, Option.some.injEq]
+            rw [normSt_eq_iff]; exact ⟨by simp only [popValue_norm, (hpop _).1], (hpop _).2⟩
+          · simp only [k5, Bool.false_eq_true, ↓reduceIte, Option.map_none]
+
 theorem endLG_norm (o : Ops) (s : MSt) (kind : Str) : (endLG o (normSt s) kind).norm = (endLG o s kind).norm := by
   unfold endLG
   by_cases hk : (kind == S "link") = true
@@ -212,6 +255,23 @@ theorem endLG_norm (o : Ops) (s : MSt) (kind : Str) : (endLG o (normSt s) kind).
           rw [normSt_eq_iff]
           exact ⟨by simp only [this.1], this.2⟩
         · simp only [hen, Bool.false_eq_true, ↓reduceIte]
+          have ha := endAuthorKinds_norm o s kind
+          cases h1 : endAuthorKinds o (normSt s) kind with
+          | none =>
+            cases h2 : endAuthorKinds o s kind with
+            | none => rfl
+            | some s2 => rw [h1, h2] at ha; simp at ha
+          | some s1 =>
+            cases h2 : endAuthorKinds o s kind with
+            | none => rw [h1, h2] at ha; simp at ha
+            | some s2 =>
+              rw [h1, h2] at ha
+              simp only [Option.map_some, Option.some.injEq] at ha
+              have := (normSt_eq_iff _ _).mp ha
+              simp only [Outcome.norm]
+              congr 1
+              rw [normSt_eq_iff]
+              exact ⟨by simp only [this.1], this.2⟩
 
 theorem handleData_norm (s : MSt) (t : Str) : normSt (handleData (normSt s) t) = normSt (handleData s t) := by
   unfold handleData
